@@ -876,7 +876,8 @@ def mask_shift(rng):
             w = rng.choice(widths)
             m = (1 << w) - 1
             style = rng.choice(["shr-and", "div-and", "and-shifted-mask", "write-mul", "write-shl", "shl-and", "sar-and",
-                                "nested-or", "and-and", "nested-subword", "nested-subword", "shr-and-positioned"])
+                                "nested-or", "and-and", "nested-subword", "nested-subword", "shr-and-positioned",
+                                "copy-chain", "copy-chain"])
             feats.add(style)
             if k >= 256:
                 feats.add("shift>=256")
@@ -893,6 +894,21 @@ def mask_shift(rng):
                         a.emit(kk, "SHR")
                     a.emit(("push", (((1 << ww) - 1) << pos) & evm.M256, None), "AND")
                 a.emit(rng.choice([[0, "MSTORE"], [(s + 1) % 4, "SSTORE"]]))
+            elif style == "copy-chain":
+                # a high part of slot A is copied to slot B, a high part of B to C, ... within one thread: the
+                # sub-word offsets accumulate along the chain (to 256 and beyond)
+                chain = rng.sample(range(0, 6), rng.randint(2, 4))
+                for src, dst in zip(chain, chain[1:]):
+                    kk = rng.choice([64, 100, 128, 160, 200, 248])
+                    ww = rng.choice([8, 32, 64, 128])
+                    a.emit(src if src else ("push", 0, 1), "SLOAD")
+                    if rng.random() < 0.7:
+                        a.emit(kk, "SHR")
+                    else:
+                        a.emit(("push", 1 << kk, None), "SWAP1", "DIV")
+                    a.emit(("push", (1 << ww) - 1, None), "AND", dst if dst else ("push", 0, 1), "SSTORE")
+                last = chain[-1]
+                a.emit(last if last else ("push", 0, 1), "SLOAD", rng.choice([8, 72, 200]), "SHR", 0xff, "AND", 0, "MSTORE")
             elif style == "shr-and-positioned":
                 kk = rng.choice([8, 64, 100, 112, 128, 200])
                 pos = rng.choice([8, 64, 128, 152, 200, 240])
